@@ -1,14 +1,146 @@
 /-
-C09 — evaluator property; theorems over LiquerModel/Eval.lean and LiquerModel/Ref.lean.
+C09 — Cache reuse: cached results are never re-executed; after a cacheable evaluation the key is present.
+Theorems over LiquerModel/Eval.lean and LiquerModel/Ref.lean; helper lemmas in LiquerProofs/Lemmas/Eval*.lean.
+`Sound`, `Closed`, `CanonOK`: see the header of Props/C01.lean.
 -/
 import LiquerModel.Ref
 import LiquerProofs.Inst.Vocab
+import LiquerProofs.Lemmas.EvalCache
+import LiquerProofs.Lemmas.EvalExact
+import LiquerProofs.Lemmas.EvalExample
+import LiquerProofs.Lemmas.EvalReuse
 
 namespace Liquer.C09
 
 /-- the regenerated command signature table satisfies the side conditions the evaluator theorems assume -/
 theorem inst_registry : Inst.registryOK Gen.registry = true := Inst.registry_ok
 
+/-- A hit: when the cache serves the canonical key (no extra parameters, no input value), the evaluation returns
+the served state and leaves the world — cache and call log — exactly as it was, whatever the as-typed text. -/
+theorem hit (env : Env) (n : Nat) (w : World) (q : Query) (raw : Str) (extra : Extra) (input : Option Val)
+    (st : EState) (h : w.get (q.encode Gen.escapeTable) = some st) (he : extra.isEmpty = true) (hi : input = none) :
+    evalQ env (n+1) w q raw extra input true = (w, .st st) :=
+  evalQ_hit env n w q raw extra input st h he hi
+
+/-- Present after: a successful, non-volatile, caching-enabled result reached through an action or a file name
+(`hasStep`: decidable) is in the cache afterwards, under the canonical text — as returned (it was a hit) or
+with status `ready` (it was just stored). -/
+theorem present_after (env : Env) (n : Nat) (w w' : World) (q : Query) (raw : Str) (st : EState)
+    (hen : w.enabled = true)
+    (h : evalQ env (n+1) w q raw .none none true = (w', .st st))
+    (hc : st.caching = true) (he : st.isError = false) (hv : st.volatile = false) (hstep : q.hasStep = true) :
+    w'.get (q.encode Gen.escapeTable) = some st ∨
+      w'.get (q.encode Gen.escapeTable) = some { st with status := statusReady } :=
+  Liquer.present_after env n w w' q raw st hen h hc he hv hstep
+
+/-- Second run silent: immediately re-evaluating the query — any spelling, any fuel — returns the cached state
+(equal to the first result up to `status`) and leaves the world unchanged; in particular no command is executed. -/
+theorem second_run_silent (env : Env) (n : Nat) (w w' : World) (q : Query) (raw : Str) (st : EState)
+    (hen : w.enabled = true)
+    (h : evalQ env (n+1) w q raw .none none true = (w', .st st))
+    (hc : st.caching = true) (he : st.isError = false) (hv : st.volatile = false) (hstep : q.hasStep = true) :
+    ∃ s, s.core = st.core ∧ w'.get (q.encode Gen.escapeTable) = some s ∧
+      ∀ m raw', evalQ env (m+1) w' q raw' .none none true = (w', .st s) ∧
+        (evalQ env (m+1) w' q raw' .none none true).1.calls = w'.calls := by
+  obtain ⟨s, h1, h2, h3⟩ := Liquer.second_run_silent env n w w' q raw st hen h hc he hv hstep
+  exact ⟨s, h1, h2, fun m raw' => ⟨h3 m raw', by rw [h3 m raw']⟩⟩
+
+/-- Reuse in general: in a sound world the executed calls are a subsequence of the reference calls (cached
+prefixes, link arguments and sub-queries are skipped, nothing else is ever executed), and the outcome is the
+reference outcome. -/
+theorem reuse_subsequence {env : Env} {C : Query → Prop} {T : Str → Prop} (hC : Closed env C T)
+    (hcanon : ∀ q, C q → CanonOK env q) (n : Nat) (w : World) (q : Query) (raw : Str) (hS : Sound env w) (hCq : C q)
+    (hne : (evalQ env n w q raw .none none true).2 ≠ .unmodelled) :
+    ∃ m c', (evalQ env n w q raw .none none true).1.calls = w.calls ++ c' ∧
+      c'.Sublist (refQ env m q raw .none none).2 ∧
+      Outcome.sim (evalQ env n w q raw .none none true).2 (refQ env m q raw .none none).1 :=
+  (evalQ_refines hC hcanon n w q raw .none none true hS hCq (fun _ => rfl)).2 hne
+
+/-- every level of the recursion files its result: the cache flags never change, so a cache that accepts
+results keeps accepting them during the whole evaluation -/
+theorem enabled_invariant (env : Env) (n : Nat) (w : World) (q : Query) (raw : Str) (extra : Extra)
+    (input : Option Val) (uc : Bool) : (evalQ env n w q raw extra input uc).1.enabled = w.enabled :=
+  ((frame env n).q w q raw extra input uc).1
+
+/-- Extension of a cached prefix: after a cacheable evaluation of `p`, evaluating a one-step extension `q` of `p`
+(last action link-free and `sub`-free, `q` itself not cached, typed as anything but the canonical text of `p`)
+hits `p` and executes exactly the reference calls of the last action; the outcome is the reference outcome of
+that action on the cached state. -/
+theorem extension_runs_last_step (env : Env) (n m : Nat) (w w' : World) (p q : Query) (h : Option Header) (a : Action)
+    (raw : Str) (st : EState) (hen : w.enabled = true)
+    (h1 : evalQ env (n+1) w p (p.encode Gen.escapeTable) .none none true = (w', .st st))
+    (hc : st.caching = true) (he : st.isError = false) (hv : st.volatile = false) (hstep : p.hasStep = true)
+    (hq : q.predecessor = some (p, some (.transform h [a] none))) (hpe : p.segments.isEmpty = false)
+    (ha : a.plain = true) (hraw : raw ≠ p.encode Gen.escapeTable)
+    (hmiss : w'.get (q.encode Gen.escapeTable) = none) :
+    (evalQ env (m+2) w' q raw .none none true).1.calls =
+      w'.calls ++ (refAction env (m+1) st a raw (p.encode Gen.escapeTable) .none).2 ∧
+    Outcome.sim (evalQ env (m+2) w' q raw .none none true).2
+      (match (refAction env (m+1) st a raw (p.encode Gen.escapeTable) .none).1 with
+       | .st st2 => .st { st2 with query := q.encode Gen.escapeTable }
+       | other => other) :=
+  Liquer.extension_runs_last_step env n m w w' p q h a raw st hen h1 hc he hv hstep hq hpe ha hraw hmiss
+
+/-- The same with link arguments (or `sub`) in the new action, in a sound world: what is executed is a
+subsequence of the reference calls of the last action (cached link and sub-queries are skipped too). -/
+theorem extension_runs_last_step_links {env : Env} {C : Query → Prop} {T : Str → Prop} (hC : Closed env C T)
+    (hcanon : ∀ q, C q → CanonOK env q) (n m : Nat) (w w' : World) (p q : Query) (h : Option Header) (a : Action)
+    (raw : Str) (st : EState) (hen : w.enabled = true) (hS' : Sound env w') (hCq : C q)
+    (h1 : evalQ env (n+1) w p (p.encode Gen.escapeTable) .none none true = (w', .st st))
+    (hc : st.caching = true) (he : st.isError = false) (hv : st.volatile = false) (hstep : p.hasStep = true)
+    (hq : q.predecessor = some (p, some (.transform h [a] none))) (hpe : p.segments.isEmpty = false)
+    (hraw : raw ≠ p.encode Gen.escapeTable)
+    (hmiss : w'.get (q.encode Gen.escapeTable) = none)
+    (hne : (evalQ env (m+2) w' q raw .none none true).2 ≠ .unmodelled) :
+    ∃ m' c', (evalQ env (m+2) w' q raw .none none true).1.calls = w'.calls ++ c' ∧
+      c'.Sublist (refAction env m' st a raw (p.encode Gen.escapeTable) .none).2 :=
+  Liquer.extension_runs_last_step_links hC hcanon n m w w' p q h a raw st hen hS' hCq h1 hc he hv hstep hq hpe hraw
+    hmiss hne
+
+/-- full statement for extensions by any number `k` of steps: the executed calls are a subsequence of the
+reference calls to the right of the cached prefix.  (The canonical texts of the intermediate queries must differ
+from that of `p`, otherwise progress metadata would hide the entry of `p`.)  Proved parts: one step
+(`extension_runs_last_step`, exact; `extension_runs_last_step_links`, subsequence) and `reuse_subsequence`. -/
+def extension_runs_suffix_statement (env : Env) : Prop :=
+  (∀ q, CanonOK env q) →
+  ∀ (n m k : Nat) (w w' : World) (p q : Query) (st : EState) (c0 c : List Str) (o : Outcome),
+    w.enabled = true → Sound env w →
+    evalQ env (n+1) w p (p.encode Gen.escapeTable) .none none true = (w', .st st) →
+    st.caching = true → st.isError = false → st.volatile = false → p.hasStep = true →
+    Chain p q k → (∀ q' j, Chain p q' j → q'.encode Gen.escapeTable ≠ p.encode Gen.escapeTable) →
+    w'.get (q.encode Gen.escapeTable) = none →
+    refQ env m p (p.encode Gen.escapeTable) .none none = (.st st, c0) →
+    refQ env (m+k) q (q.encode Gen.escapeTable) .none none = (o, c) → o ≠ .unmodelled →
+    ∃ c', (evalQ env (m+k+1) w' q (q.encode Gen.escapeTable) .none none true).1.calls = w'.calls ++ c' ∧
+      c'.Sublist (c.drop c0.length)
+
+-- non-vacuity: `one/add-2` from the empty cache is cacheable and has a step; after it the key is present;
+-- the second run (typed differently) executes nothing; the extension of the cached `one` runs `add` only.
+open Ex in
+example :
+    let r := evalQ env0 9 {} qOneAdd (s "one/add-2") .none none true
+    (({} : World).enabled = true) ∧ qOneAdd.hasStep = true ∧
+    r.2.obs.map (fun o => (o.value, o.volatile)) = some (some (.int 3), false) ∧
+    r.1.calls = [s "root.one(N;)", s "root.add(I1;I2)"] ∧
+    r.1.get (s "one/add-2") ≠ none ∧ r.1.get (s "one") ≠ none ∧
+    (evalQ env0 3 r.1 qOneAdd (s "one/add-2/") .none none true).1.calls = r.1.calls := by
+  decide +kernel
+-- the hypotheses of `extension_runs_last_step`: `one` is cached from the empty world, `one/add-2` extends it
+open Ex in
+example :
+    let r := evalQ env0 9 {} qOne (s "one") .none none true
+    qOne.hasStep = true ∧ r.2.obs.map (fun o => (o.value, o.volatile)) = some (some (.int 1), false) ∧
+    aAdd2.plain = true ∧ s "one/add-2" ≠ qOne.encode Gen.escapeTable ∧ r.1.get (qOneAdd.encode Gen.escapeTable) = none ∧
+    (evalQ env0 9 { r.1 with calls := [] } qOneAdd (s "one/add-2") .none none true).1.calls = [s "root.add(I1;I2)"] := by
+  decide +kernel
+open Ex in
+example : qOneAdd.predecessor = some (qOne, some (.transform none [aAdd2] none)) := by
+  simp [qOneAdd, qOne, Query.predecessor]
+open Ex in
+example : Closed env0 C0 T0 ∧ (∀ q, C0 q → CanonOK env0 q) ∧ Sound env0 {} ∧ C0 qOneAdd :=
+  ⟨closed0, canon0, Sound.empty _, Or.inr (Or.inl rfl)⟩
+
 end Liquer.C09
 
--- OBLIGATIONS: Liquer.C09.inst_registry
+-- OBLIGATIONS: Liquer.C09.inst_registry Liquer.C09.hit Liquer.C09.present_after Liquer.C09.second_run_silent Liquer.C09.reuse_subsequence Liquer.C09.enabled_invariant Liquer.C09.extension_runs_last_step Liquer.C09.extension_runs_last_step_links
+-- STATEMENT-ONLY: Liquer.C09.extension_runs_suffix_statement
